@@ -24,7 +24,7 @@ pub mod qosx;
 // pub mod wiregen;
 // pub mod plcdr;
 // pub mod hostile;
-// pub mod sched_bodies;
+pub mod sched_bodies;
 
 #[cfg(feature = "security")]
 pub use crate::security::verif_sec as sec;
